@@ -216,6 +216,9 @@ class Node:
 
         """
         self._busy_lock = threading.Lock()
+        # application readiness is set by the read threads of connections
+        # and recomputed by the connection thread
+        self._ready_lock = threading.Lock()
         self._half_ready_connections: dict[str, PeerConnection] = {}
         self._started = False
         self._stopping = False
@@ -606,15 +609,16 @@ class Node:
             f"{conn} is now connected, waiting CER/CEA to complete")
 
     def _flag_connection_as_ready(self, conn: PeerConnection):
-        conn.state = PEER_READY
-        for app_peers in self._peer_routes.values():
-            for app, peers in app_peers.items():
-                if not isinstance(app, Application):
-                    continue
-                for peer in peers:
-                    if peer.connection == conn:
-                        app.is_ready.set()
-                        break
+        with self._ready_lock:
+            conn.state = PEER_READY
+            for app_peers in self._peer_routes.values():
+                for app, peers in app_peers.items():
+                    if not isinstance(app, Application):
+                        continue
+                    for peer in peers:
+                        if peer.connection == conn:
+                            app.is_ready.set()
+                            break
 
     def _generate_answer(self, conn: PeerConnection, msg: _AnyMessageType) -> _AnyAnswerType:
         answer_msg = msg.to_answer()
@@ -1495,19 +1499,20 @@ class Node:
                 app_list.setdefault(app, [])
                 app_list[app] += peers
 
-        for app, peers in app_list.items():
-            if not isinstance(app, Application):
-                continue
-            any_peer_ready = False
-            for app_peer in peers:
-                if app_peer.connection and app_peer.connection.state in PEER_READY_STATES:
-                    any_peer_ready = True
-                    break
-            if not any_peer_ready:
-                self.logger.warning(
-                    f"{conn} was last available peer connection for {app}, "
-                    f"flagging app as not ready")
-                app.is_ready.clear()
+        with self._ready_lock:
+            for app, peers in app_list.items():
+                if not isinstance(app, Application):
+                    continue
+                any_peer_ready = False
+                for app_peer in peers:
+                    if app_peer.connection and app_peer.connection.state in PEER_READY_STATES:
+                        any_peer_ready = True
+                        break
+                if not any_peer_ready:
+                    self.logger.warning(
+                        f"{conn} was last available peer connection for {app}, "
+                        f"flagging app as not ready")
+                    app.is_ready.clear()
 
         self.logger.debug(f"{conn} removed")
 
